@@ -51,6 +51,12 @@ def strip_coq_comments(s):
     return ''.join(out)
 
 # ---------------------------------------------------------------------------
+def _big_stack():
+    try:
+        resource.setrlimit(resource.RLIMIT_STACK, (resource.RLIM_INFINITY, resource.RLIM_INFINITY))
+    except (ValueError, OSError):
+        pass
+
 class Ctx:
     def __init__(self, pid, tier, seed):
         self.pid = pid; self.tier = tier; self.seed = seed
@@ -160,15 +166,21 @@ class Ctx:
                 f.write(imports + '\nSet Printing Width 1000000.\nSet Printing Depth 1000000.\n')
                 for i in idx:
                     f.write('Eval vm_compute in (%s).\n' % exprs[i])
-            p = subprocess.Popen(['coqc', '-noglob', '-Q', COQ, 'IE', path], stdout=subprocess.PIPE,
-                                 stderr=subprocess.STDOUT, text=True, cwd=COQ)
-            procs.append((p, idx, path))
+            outf = open(path + '.out', 'w')
+            p = subprocess.Popen(['coqc', '-noglob', '-Q', COQ, 'IE', path], stdout=outf,
+                                 stderr=subprocess.STDOUT, cwd=COQ, preexec_fn=_big_stack)
+            procs.append((p, idx, path, outf))
         self.model_errors = []
-        for p, idx, path in procs:
+        deadline = time.time() + timeout
+        for p, idx, path, outf in procs:
             try:
-                o, _ = p.communicate(timeout=timeout)
+                p.wait(timeout=max(1, deadline - time.time()))
+                extra = ''
             except subprocess.TimeoutExpired:
-                p.kill(); o, _ = p.communicate(); o += '\n[timeout]'
+                p.kill(); p.wait(); extra = '\n[timeout]'
+            outf.close()
+            with open(path + '.out', errors='replace') as f:
+                o = f.read() + extra
             vals = []
             cur = None
             for line in o.splitlines():
